@@ -471,7 +471,8 @@ func checkLine(t *rapid.T, p *Program, err error, want int, cls string, det func
 	j := js[uni(t, "shift", len(js))]
 	sout, serr := rerender(strings.Repeat("\n", j) + p.Main)
 	count("c15_shift_runs", 1)
-	wantErr := fmt.Sprintf("line %d: %s", want+j, err.Error()[len(m[0]):])
+	// every message of the error shifts (a statement the PARSER rejects comes back as several messages)
+	wantErr := shiftLines(err.Error(), j)
 	if serr == nil || sout != "" || normFault(serr.Error()) != normFault(wantErr) {
 		d := det
 		violate(t, "C15", "shift-by-k-newlines-adds-k", "c15:shift:main:"+cls, func() map[string]interface{} {
